@@ -10,7 +10,7 @@ import numpy as np
 from .. import history
 from ..battery import call, _Raised
 
-TIERS = {"quick": 200, "thorough": 4000}
+TIERS = {"quick": 200, "thorough": 8000}
 WATCHDOG_S = {"quick": 1500, "thorough": 12000}
 RULE = ("one case = one hypergraph (4-10 nodes from any label universe, 2-14 hyperedges of sizes 2-5, isolated nodes, "
         "weighted or not) x one configuration (K 2-4, seed, n_realizations 1-3, max_iter 1-40, normalizeU, baseline_r0, "
